@@ -115,6 +115,7 @@ var (
 		{Account: coinswaptypes.ModuleName, Permissions: []string{authtypes.Minter, authtypes.Burner}},
 		{Account: farmtypes.ModuleName, Permissions: []string{authtypes.Burner}},
 		{Account: farmtypes.RewardCollector},
+		{Account: farmtypes.EscrowCollector},
 		{Account: htlctypes.ModuleName, Permissions: []string{authtypes.Minter, authtypes.Burner}},
 		{Account: nfttypes.ModuleName},
 		{Account: mttypes.ModuleName},
